@@ -30,6 +30,11 @@ Inductive qq_outcome :=
 | QQ_die_write                       (* dies before the envelope was written completely: the envelope write or waitpid shows it *)
 | QQ_die_early                       (* is dead before the first data line is written: that write fails with EPIPE *)
 | QQ_signal.                         (* reads everything, killed by a signal *)
+(** smtp_auth on the text behind "AUTH ": the mechanism table, base64 decoding and the backend (checkpassword) are the oracle *)
+Inductive auth_result :=
+| Auth_ok (name : bytes)             (* mechanism handler returned 0: "235", xmitstat.authname = name (not empty) *)
+| Auth_done (code : N)               (* a final reply was written and EDONE returned: 535 (after sleep), 504, 501, 454 *)
+| Auth_multi.                        (* the mechanism goes on reading lines: outside this model (property C09) *)
 
 Record oracles := {
   o_helo : bytes -> bool;                         (* helovalid() accepts the argument *)
@@ -41,7 +46,9 @@ Record oracles := {
   o_databytes : N;                                (* control/databytes, 0 = unlimited *)
   o_liphost : bytes;                              (* control/localiphost (default: control/me) *)
   o_check2822 : bool;                             (* the recipients' check_strict_rfc2822 setting (uniform in the harness: global filterconf) *)
-  o_trace : bytes -> bytes -> bool -> bytes -> N -> bytes   (* Received-SPF + Received lines: helo, sender, esmtp, first recipient, relayclient *)
+  o_authperm : bool;                              (* auth_permitted(): a backend is configured (and, with forcesslauth, TLS is active) *)
+  o_auth : bytes -> auth_result;                  (* the mechanism handler on the text behind "AUTH " *)
+  o_trace : bytes -> bytes -> bytes -> bool -> bytes -> N -> bytes   (* Received-SPF + Received lines: authname, helo, sender, esmtp, first recipient, relayclient *)
 }.
 
 (** ---------- state ---------- *)
@@ -59,7 +66,8 @@ Record sstate := {
   thisbytes : N;
   qcount : nat;
   check2822 : N;                      (* xmitstat.check2822: 2 = not decided yet, 1 = every recipient so far wants the check, 0 = off *)
-  datatype : bool                     (* xmitstat.datatype: the client declared 8-bit data *)
+  datatype : bool;                     (* xmitstat.datatype: the client declared 8-bit data *)
+  authname : bytes                    (* xmitstat.authname: [] = not authenticated; never reset on a connection *)
 }.
 
 (** Ghost notes: not observable on the wire; they mark, inside the event
@@ -67,10 +75,12 @@ Record sstate := {
 Inductive note :=
 | NBoundary                                  (* sender and recipients are discarded (freedata) *)
 | NHelo                                      (* HELO / EHLO accepted *)
+| NEsmtp (e : bool)                          (* ... and which of the two it was: true = EHLO (stands right behind NHelo) *)
 | NMail (sender : bytes)                     (* MAIL FROM accepted *)
 | NRcpt (addr : bytes) (cls : rclass)        (* RCPT TO accepted *)
 | NWithdraw                                  (* second recipient of a bounce: all recipients accepted so far are withdrawn *)
 | NData (k : nat)                            (* DATA accepted: 354 sent, k-th qmail-queue invocation runs *)
+| NAuth (name : bytes)                        (* AUTH succeeded: xmitstat.authname = name *)
 | NBad                                       (* check_max_bad_commands() counted one more bad command *)
 | NBadReset                                  (* the bad command counter was set to 0 *)
 | NBadClose.                                 (* check_max_bad_commands() ends the connection *)
@@ -85,15 +95,18 @@ Inductive event :=
 Definition set_rd (s : sstate) (r : rstate) : sstate :=
   {| rd := r; comstate := comstate s; esmtp := esmtp s; helostr := helostr s; mailfrom := mailfrom s; rcpts := rcpts s;
      rcptcount := rcptcount s; goodrcpt := goodrcpt s; badcmds := badcmds s; relayclient := relayclient s;
-     thisbytes := thisbytes s; qcount := qcount s; check2822 := check2822 s; datatype := datatype s |}.
+     thisbytes := thisbytes s; qcount := qcount s; check2822 := check2822 s; datatype := datatype s; authname := authname s |}.
 Definition set_comstate (s : sstate) (c : N) : sstate :=
   {| rd := rd s; comstate := c; esmtp := esmtp s; helostr := helostr s; mailfrom := mailfrom s; rcpts := rcpts s;
      rcptcount := rcptcount s; goodrcpt := goodrcpt s; badcmds := badcmds s; relayclient := relayclient s;
-     thisbytes := thisbytes s; qcount := qcount s; check2822 := check2822 s; datatype := datatype s |}.
+     thisbytes := thisbytes s; qcount := qcount s; check2822 := check2822 s; datatype := datatype s; authname := authname s |}.
 Definition set_badcmds (s : sstate) (b : nat) : sstate :=
   {| rd := rd s; comstate := comstate s; esmtp := esmtp s; helostr := helostr s; mailfrom := mailfrom s; rcpts := rcpts s;
      rcptcount := rcptcount s; goodrcpt := goodrcpt s; badcmds := b; relayclient := relayclient s;
-     thisbytes := thisbytes s; qcount := qcount s; check2822 := check2822 s; datatype := datatype s |}.
+     thisbytes := thisbytes s; qcount := qcount s; check2822 := check2822 s; datatype := datatype s; authname := authname s |}.
+
+(** is_authenticated_client() without TLS client certificates: AUTH succeeded on this connection *)
+Definition authed (s : sstate) : bool := match authname s with [] => false | _ => true end.
 
 Definition helo_state (e : bool) : N := if e then 16%N else 8%N.      (* 0x008 << esmtp *)
 Definition TRANS_STATES : N := 2144%N.                                 (* 0x0860: MAIL, RCPT, BDAT *)
@@ -103,7 +116,7 @@ Definition freedata (s : sstate) : sstate :=
   {| rd := rd s;
      comstate := if N.eqb (N.land (comstate s) TRANS_STATES) 0 then comstate s else helo_state (esmtp s);
      esmtp := esmtp s; helostr := helostr s; mailfrom := []; rcpts := []; rcptcount := 0; goodrcpt := 0;
-     badcmds := badcmds s; relayclient := relayclient s; thisbytes := thisbytes s; qcount := qcount s; check2822 := check2822 s; datatype := datatype s |}.
+     badcmds := badcmds s; relayclient := relayclient s; thisbytes := thisbytes s; qcount := qcount s; check2822 := check2822 s; datatype := datatype s; authname := authname s |}.
 
 (** data_pending(): a byte waiting in the current segment is pulled into lineinn *)
 Definition data_pending (s : sstate) : bool * sstate :=
@@ -329,7 +342,11 @@ Definition envelope (liphost from : bytes) (rc : list (bytes * bool)) : bytes :=
 Definition set_relayclient (s : sstate) (rc : N) : sstate :=
   {| rd := rd s; comstate := comstate s; esmtp := esmtp s; helostr := helostr s; mailfrom := mailfrom s;
      rcpts := rcpts s; rcptcount := rcptcount s; goodrcpt := goodrcpt s; badcmds := badcmds s;
-     relayclient := rc; thisbytes := thisbytes s; qcount := qcount s; check2822 := check2822 s; datatype := datatype s |}.
+     relayclient := rc; thisbytes := thisbytes s; qcount := qcount s; check2822 := check2822 s; datatype := datatype s; authname := authname s |}.
+Definition set_authname (s : sstate) (nm : bytes) : sstate :=
+  {| rd := rd s; comstate := comstate s; esmtp := esmtp s; helostr := helostr s; mailfrom := mailfrom s;
+     rcpts := rcpts s; rcptcount := rcptcount s; goodrcpt := goodrcpt s; badcmds := badcmds s;
+     relayclient := relayclient s; thisbytes := thisbytes s; qcount := qcount s; check2822 := check2822 s; datatype := datatype s; authname := nm |}.
 
 (** is_authenticated() for an address outside rcpthosts: the relay list is looked up once and the
     outcome is cached in relayclient (1 allowed, 2 not); it is set to 2 BEFORE the result is
@@ -339,6 +356,8 @@ Definition relay_decide (o : oracles) (s : sstate) (cls : rclass) : bool * sstat
   match cls with
   | RLocal => (true, s, [])
   | RNotLocal =>
+      (* is_authenticated_client(): a successful AUTH on this connection entitles to relay; the relay list is not consulted *)
+      if authed s then (true, s, []) else
       if N.eqb (relayclient s) 0 then
         let rc := if Z.ltb 0 (o_relay o) then 1%N else 2%N in
         if Z.ltb (o_relay o) 0 then (false, set_relayclient s 2%N, [Reply 421])
@@ -375,7 +394,7 @@ Definition h_rcpt (o : oracles) (s : sstate) (arg : bytes) : list event * hres *
               ([Note NWithdraw; Reply 550], HEBOGUS,
                tarpit {| rd := rd s1; comstate := comstate s1; esmtp := esmtp s1; helostr := helostr s1; mailfrom := mailfrom s1;
                          rcpts := rc'; rcptcount := S (rcptcount s1); goodrcpt := 0; badcmds := badcmds s1;
-                         relayclient := relayclient s1; thisbytes := thisbytes s1; qcount := qcount s1; check2822 := check2822 s1; datatype := datatype s1 |})
+                         relayclient := relayclient s1; thisbytes := thisbytes s1; qcount := qcount s1; check2822 := check2822 s1; datatype := datatype s1; authname := authname s1 |})
             else
               ([Note (NRcpt addr cls); Reply 250], H0,
                {| rd := rd s1; comstate := comstate s1; esmtp := esmtp s1; helostr := helostr s1; mailfrom := mailfrom s1;
@@ -383,7 +402,7 @@ Definition h_rcpt (o : oracles) (s : sstate) (arg : bytes) : list event * hres *
                   badcmds := badcmds s1; relayclient := relayclient s1; thisbytes := thisbytes s1; qcount := qcount s1;
                   (* cb_check2822: one recipient without the setting switches the check off for the connection *)
                   check2822 := if N.eqb (check2822 s1) 0 then 0%N else if o_check2822 o then 1%N else 0%N;
-                  datatype := datatype s1 |})
+                  datatype := datatype s1; authname := authname s1 |})
         end
       end
   end
@@ -393,7 +412,7 @@ Definition h_from (o : oracles) (s : sstate) (arg : bytes) (linelen : nat) : lis
   let clear (s : sstate) :=
     {| rd := rd s; comstate := comstate s; esmtp := esmtp s; helostr := helostr s; mailfrom := []; rcpts := rcpts s;
        rcptcount := rcptcount s; goodrcpt := goodrcpt s; badcmds := badcmds s; relayclient := relayclient s;
-       thisbytes := 0%N; qcount := qcount s; check2822 := check2822 s; datatype := false |} in
+       thisbytes := 0%N; qcount := qcount s; check2822 := check2822 s; datatype := false; authname := authname s |} in
   let s := clear s in
   match o_addr o false arg with
   | AP_nobracket => ([], HEINVAL, s)
@@ -414,7 +433,7 @@ Definition h_from (o : oracles) (s : sstate) (arg : bytes) (linelen : nat) : lis
                  {| rd := rd s; comstate := comstate s; esmtp := esmtp s; helostr := helostr s; mailfrom := addr; rcpts := rcpts s;
                     rcptcount := rcptcount s; goodrcpt := 0; badcmds := badcmds s; relayclient := relayclient s;
                     thisbytes := tb; qcount := qcount s; check2822 := check2822 s;
-                    datatype := match body8 with Some b => b | None => false end |})
+                    datatype := match body8 with Some b => b | None => false end; authname := authname s |})
           end
       end
   end.
@@ -429,9 +448,9 @@ Definition h_data (fuel : nat) (o : oracles) (s : sstate) : list event * hres * 
         let k := qcount s in
         let s := {| rd := rd s; comstate := comstate s; esmtp := esmtp s; helostr := helostr s; mailfrom := mailfrom s;
                     rcpts := rcpts s; rcptcount := rcptcount s; goodrcpt := goodrcpt s; badcmds := badcmds s;
-                    relayclient := relayclient s; thisbytes := thisbytes s; qcount := S k; check2822 := check2822 s; datatype := datatype s |} in
+                    relayclient := relayclient s; thisbytes := thisbytes s; qcount := S k; check2822 := check2822 s; datatype := datatype s; authname := authname s |} in
         let first := match rcpts s with (a, _) :: _ => a | [] => [] end in
-        let trace := o_trace o (helostr s) (mailfrom s) (esmtp s) first (relayclient s) in
+        let trace := o_trace o (authname s) (helostr s) (mailfrom s) (esmtp s) first (relayclient s) in
         let dc := {| d_wfail := match o_qq o k with QQ_die_early => true | _ => false end;
                      d_chk := N.eqb (check2822 s) 1; d_dt := datatype s;
                      d_rcpts := map fst (filter (fun x => snd x) (rcpts s)) |} in
@@ -519,20 +538,20 @@ Definition run_handler (f : nat) (o : oracles) (s : sstate) (l : bytes) (namelen
       let s' := freedata s in
       let s' := {| rd := rd s'; comstate := comstate s'; esmtp := false; helostr := helostr s'; mailfrom := mailfrom s';
                    rcpts := rcpts s'; rcptcount := rcptcount s'; goodrcpt := goodrcpt s'; badcmds := badcmds s';
-                   relayclient := relayclient s'; thisbytes := thisbytes s'; qcount := qcount s'; check2822 := check2822 s'; datatype := false |} in
+                   relayclient := relayclient s'; thisbytes := thisbytes s'; qcount := qcount s'; check2822 := check2822 s'; datatype := false; authname := authname s' |} in
       if o_helo o (skipn 5 l) then
-        ([Note NBoundary; Note NHelo; Reply 250], H0,
+        ([Note NBoundary; Note NHelo; Note (NEsmtp false); Reply 250], H0,
          {| rd := rd s'; comstate := comstate s'; esmtp := false; helostr := skipn 5 l; mailfrom := mailfrom s';
             rcpts := rcpts s'; rcptcount := rcptcount s'; goodrcpt := goodrcpt s'; badcmds := badcmds s';
-            relayclient := relayclient s'; thisbytes := thisbytes s'; qcount := qcount s'; check2822 := check2822 s'; datatype := datatype s' |}, st)
+            relayclient := relayclient s'; thisbytes := thisbytes s'; qcount := qcount s'; check2822 := check2822 s'; datatype := datatype s'; authname := authname s' |}, st)
       else ([Note NBoundary], HEINVAL, s', st)
   | 4 => (* smtp_ehlo *)
       let s' := freedata s in
       if o_helo o (skipn 5 l) then
-        ([Note NBoundary; Note NHelo; Reply 250], H0,
+        ([Note NBoundary; Note NHelo; Note (NEsmtp true); Reply 250], H0,
          {| rd := rd s'; comstate := comstate s'; esmtp := true; helostr := skipn 5 l; mailfrom := mailfrom s';
             rcpts := rcpts s'; rcptcount := rcptcount s'; goodrcpt := goodrcpt s'; badcmds := badcmds s';
-            relayclient := relayclient s'; thisbytes := thisbytes s'; qcount := qcount s'; check2822 := check2822 s'; datatype := datatype s' |}, st)
+            relayclient := relayclient s'; thisbytes := thisbytes s'; qcount := qcount s'; check2822 := check2822 s'; datatype := datatype s'; authname := authname s' |}, st)
       else ([Note NBoundary], HEINVAL, s', st)
   | 5 => let '(e, h, s') := h_from o s rest_ (length l) in (e, h, s', st)
   | 6 => let '(e, h, s') := h_rcpt o s rest_ in (e, h, s', st)
@@ -541,7 +560,13 @@ Definition run_handler (f : nat) (o : oracles) (s : sstate) (l : bytes) (namelen
   | 8 => (* STARTTLS without a certificate (harness configuration): tls_err() writes 454 and returns -EDONE,
             which smtploop does not know: "500 5.3.0 unknown error" follows *)
          ([Reply 454], HUNKNOWN, s, st)
-  | 9 => ([], HSEQ, s, st)                      (* AUTH without a backend (harness configuration) *)
+  | 9 => (* smtp_auth: "if (xmitstat.authname.len || !auth_permitted()) return 1" *)
+      if authed s || negb (o_authperm o) then ([], HSEQ, s, st)
+      else match o_auth o (skipn 5 l) with
+           | Auth_ok name => ([Note (NAuth name); Reply 235], H0, set_authname s name, st)
+           | Auth_done c => ([Reply c], HEDONE, s, st)
+           | Auth_multi => ([EStuck], HEXIT, s, st)
+           end
   | 10 => ([Reply 252], H0, s, st)
   | 12 => (* http_post *)
       if N.eqb (comstate s) 1 && bytes_eqb (sub l 4 10) [32; 47; 32; 72; 84; 84; 80; 47; 49; 46]%N
@@ -606,7 +631,7 @@ Fixpoint serve (fuel : nat) (o : oracles) (s : sstate) : list event :=
 Definition init_state (chunks : list bytes) : sstate :=
   {| rd := {| inn := []; en := {| cur := []; future := chunks |} |};
      comstate := 1%N; esmtp := false; helostr := []; mailfrom := []; rcpts := []; rcptcount := 0; goodrcpt := 0;
-     badcmds := 0; relayclient := 0%N; thisbytes := 0%N; qcount := 0; check2822 := 2%N; datatype := false |}.
+     badcmds := 0; relayclient := 0%N; thisbytes := 0%N; qcount := 0; check2822 := 2%N; datatype := false; authname := [] |}.
 
 Definition session_fuel (chunks : list bytes) : nat := S (S (length (concat chunks))).
 
